@@ -114,6 +114,11 @@ type Case struct {
 	Planar      int  `json:",omitempty"`
 	Pool        []Frame
 	Actions     []Action
+	// SharedPar: one GetDefaultParameters() object serves every Encode / Decode call of the
+	// history (including the unrelated calls, which then set nothing on it), the way a caller
+	// keeps one parameters object for a study. The model calls get a fresh object each, so a call
+	// that leaves something of its image in the object shows in what follows.
+	SharedPar bool `json:",omitempty"`
 }
 
 var frameClasses = []string{"noise", "constant", "gradient", "twolevel", "runs", "extremes"}
@@ -126,6 +131,10 @@ func genSeq(t *rapid.T, pool int) []int {
 func Gen(t *rapid.T) *Case {
 	sx := rapid.SampledFrom(syntaxes).Draw(t, "syntax")
 	c := &Case{Syntax: sx.Key, W: rapid.IntRange(1, 24).Draw(t, "w"), H: rapid.IntRange(1, 24).Draw(t, "h"), SPP: rapid.SampledFrom([]int{1, 1, 3}).Draw(t, "spp")}
+	if rapid.IntRange(0, 3).Draw(t, "sharedpar") == 0 {
+		c.SharedPar = true
+		c.W, c.H = rapid.IntRange(1, 72).Draw(t, "w2"), rapid.IntRange(1, 72).Draw(t, "h2")
+	}
 	c.BA = rapid.SampledFrom([]int{8, 16}).Draw(t, "ba")
 	hi := min(c.BA, sx.MaxBS)
 	c.BS = rapid.IntRange(sx.MinBS, hi).Draw(t, "bs")
@@ -245,6 +254,8 @@ type env struct {
 	frames [][]byte
 	encOne [][]byte // model: fresh single-frame encode
 	decOne [][]byte // model: fresh single-frame decode of encOne[i]
+	par    dcodec.Parameters // the history's shared parameters object (SharedPar), else nil
+	inHist bool
 	encAlt [][]byte // JPEG-LS: encOne[i] with an LSE preset segment inserted (nil if not applicable)
 	decAlt [][]byte // what encAlt[i] decodes to alone (nil if that call fails)
 }
@@ -273,6 +284,18 @@ func withLSE(s []byte, maxval int) []byte {
 	return nil
 }
 
+// callPar: nil unless the history shares a parameters object; then that object inside the
+// history and a fresh default object for every model call.
+func (e *env) callPar() dcodec.Parameters {
+	if !e.c.SharedPar {
+		return nil
+	}
+	if e.inHist {
+		return e.par
+	}
+	return e.cd.GetDefaultParameters()
+}
+
 func (e *env) encodeFrames(idx []int) ([][]byte, [][]byte, error) {
 	src := codec.NewTestPixelData(e.info)
 	var copies [][]byte
@@ -282,7 +305,7 @@ func (e *env) encodeFrames(idx []int) ([][]byte, [][]byte, error) {
 		_ = src.AddFrame(b)
 	}
 	dst := codec.NewTestPixelData(e.info)
-	if err := e.cd.Encode(src, dst, nil); err != nil {
+	if err := e.cd.Encode(src, dst, e.callPar()); err != nil {
 		return nil, copies, err
 	}
 	var out [][]byte
@@ -302,7 +325,7 @@ func (e *env) decodeFrames(streams [][]byte) ([][]byte, [][]byte, error) {
 		_ = src.AddFrame(b)
 	}
 	dst := codec.NewTestPixelData(e.info)
-	if err := e.cd.Decode(src, dst, nil); err != nil {
+	if err := e.cd.Decode(src, dst, e.callPar()); err != nil {
 		return nil, copies, err
 	}
 	var out [][]byte
@@ -476,6 +499,11 @@ func Check(c *Case) (o core.Outcome) {
 		e.encAlt, e.decAlt = append(e.encAlt, alt), append(e.decAlt, altDec)
 	}
 
+	e.inHist = true
+	if c.SharedPar {
+		e.par = cd.GetDefaultParameters()
+		o.Label("shared-params-object")
+	}
 	for ai, a := range c.Actions {
 		switch a.Kind {
 		case "other":
@@ -491,7 +519,10 @@ func Check(c *Case) (o core.Outcome) {
 				SamplesPerPixel: uint16(ot.SPP), PhotometricInterpretation: pi}
 			oim := &gen.Image{W: ot.W, H: ot.H, C: ot.SPP, P: ot.BS, Class: "noise", Seed: ot.Seed}
 			par := e.cd.GetDefaultParameters()
-			if par != nil {
+			if c.SharedPar {
+				par = e.par
+			}
+			if par != nil && !c.SharedPar {
 				names := make([]string, 0, len(ot.Ints)+len(ot.Bools))
 				for n := range ot.Ints {
 					names = append(names, n)
